@@ -124,7 +124,7 @@ def build_api(order, direct, default=None, setter=False, numeric=False, zero_q=N
         import numpy
         mkstart = numpy.float64               # range starts taken from numpy arrays (numpy.float64 is a float)
     elif idiom == 'int-starts':
-        mkstart = lambda v: int(v) if v == int(v) and abs(v) != float('inf') else v    # noqa
+        mkstart = lambda v: int(v) if (abs(v) != float('inf') and v == int(v)) else v    # noqa
     defs = [Multi_Range_Defn(m, mkstart(float('-inf') if s is None else s), callable_for(q)) for m, s, q in order]
     kw = {} if default is None else {'default_value': default}
     if shared:
